@@ -582,3 +582,35 @@ def c09(c):
         exhaustive=False,
         exhaustive_subspaces=["every interleave point (each individual access to sandbox memory) of every variant x content, for each single adversary action"],
         assumptions=["one adversary action per call (sequences of actions are not enumerated)", "ILP32 model backend; x86-64 trap flag single-stepping"]))
+
+
+# --------------------------------------------------------------------- C18
+@plan("C18")
+def c18(c):
+    units = guest_libs() + [
+        dict(name="c18_tsan", srcs=[D + "c18_threads.cpp"], build="tsan", defs=EXC, libs=["-ldl"], needs=["libguest1.so", "libguest2.so"]),
+        dict(name="c18_tsan_lockwrap", srcs=[D + "c18_threads.cpp"], build="tsan", defs=EXC + ["C18_LOCK_WRAPPER"], libs=["-ldl"], needs=["libguest1.so", "libguest2.so"]),
+    ]
+    runs = []
+    threads = [2, 4, 8] if not c.thorough else [2, 4, 8, 16]
+    reps = 3 if not c.thorough else 6
+    for unit in ("c18_tsan", "c18_tsan_lockwrap"):
+        for b, bn in enumerate(["model", "noop", "dylib"]):
+            for nt in threads:
+                for rep in range(reps):
+                    runs.append(dict(unit=unit, label="%s[%s,%dthr,rep%d]" % (unit, bn, nt, rep), args=[b, nt, rep], env=guest_env(c), timeout=1800))
+    return dict(units=units, runs=runs, max_parallel=3, evidence=dict(
+        level="exploration",
+        rule="execution = (backend in {model FINDER, noop, dylib}, 2/4/8(/16) threads, repetition, lock build). Every thread runs a PRNG sequence of "
+             "6000 (quick) / 40000 (thorough) operations on its own two sandbox objects of the same backend type: create, destroy, re-create, "
+             "allocation and access, example-based pointer store/load (the FINDER model walks the shared live-sandbox registry on each), pointer "
+             "arithmetic, by-name invocation, callback through the sandbox, register/unregister, app pointers -- so creates/destroys constantly "
+             "overlap other threads' registry lookups. Oracles: any ThreadSanitizer report with an RLBox frame (de-duplicated by innermost RLBox "
+             "function) and the thread-local single-threaded oracles (pointer translated relative to own sandbox, callback saw own sandbox and "
+             "function, invocation reached own library). Monitor state is per thread and merged after join. The second build routes RLBox's lock "
+             "macros (RLBOX_USE_CUSTOM_SHARED_LOCK) through a thin wrapper around std::shared_timed_mutex that injects PRNG yields/sleeps before "
+             "acquire and after release and counts contended acquisitions. distinct_nontrivial counts distinct (backend, threads, seed) executions "
+             "and their operation totals; schedules are sampled, not enumerated.",
+        exhaustive=False,
+        assumptions=["same-sandbox use from several threads is outside the statement and not driven",
+                     "ThreadSanitizer only sees races on accesses that happen; the uninstrumented guest .so is outside its view"]))
